@@ -316,9 +316,9 @@ def proof_gate(ctx, thorough_chk=False):
     """Build the development, re-check the property file, collect Print Assumptions.
     Returns (ok, message)."""
     targets = ["Props/%s.vo" % ctx.prop]
-    runner = os.path.join(COQ, ctx.prop, "Runner.v")
-    if os.path.exists(runner):
-        targets.append("%s/Runner.vo" % ctx.prop)
+    pdir = os.path.join(COQ, ctx.prop)
+    if os.path.isdir(pdir):   # every file of the property's own directory (models, proofs, runners)
+        targets += ["%s/%s" % (ctx.prop, f[:-2] + ".vo") for f in sorted(os.listdir(pdir)) if f.endswith(".v")]
     rc, out = sh([os.path.join(COQ, "build.sh")] + targets, timeout=3600)
     if rc != 0:
         return False, "coq build failed:\n" + out[-4000:]
